@@ -67,9 +67,18 @@ Requested(Q)  == {Q.lv[i].z : i \in 1..Len(Q.lv)}
 Ok == R.out = "ok"
 Valid == ValidPolygon(R.poly)
 
-(* the routed boundaries themselves (used to key known finding F5: they are the arguments of the spike removal) *)
+(* the routed boundary runs along the same directed edge a -> b more than once: it winds around the same pixels several
+   times in the same direction (a multi-turn spiral thinner than a pixel); the key of known finding F13 *)
+RepeatsDirectedEdge(ch) ==
+  \E r1, r2 \in 1..Len(ch) : \E i \in 1..Len(ch[r1]) : \E j \in 1..Len(ch[r2]) :
+     /\ <<r1, i>> # <<r2, j>> /\ Len(ch[r1]) >= 2 /\ Len(ch[r2]) >= 2
+     /\ ch[r1][i] = ch[r2][j]
+     /\ ch[r1][(i % Len(ch[r1])) + 1] = ch[r2][(j % Len(ch[r2])) + 1]
+     /\ ch[r1][i] # ch[r1][(i % Len(ch[r1])) + 1]
+(* the routed boundaries themselves (used to key known findings F5 and F13: they are the arguments of the spike removal) *)
 EmitChains == PrintT(<<"VEC", ToJson([l |-> l, lv |-> [i \in 1..Len(R.lv) |->
-                        [z |-> R.lv[i].z, k |-> R.lv[i].k, rings |-> Chains(R.poly, Span(R.lv[i].k))]]])>>)
+                        LET ch == Chains(R.poly, Span(R.lv[i].k))
+                        IN  [z |-> R.lv[i].z, k |-> R.lv[i].k, rings |-> ch, rep |-> RepeatsDirectedEdge(ch)]]])>>)
 
 (* ---------------- harness sanity ---------------- *)
 ProjectionExact == R.exact
